@@ -3,7 +3,7 @@
 # runs the property's check (and any further ones named) and prints alarms: every alarm here is a FALSE alarm.
 id=$1; shift
 props="$id $@"
-wt=/tmp/wt-try
+wt=/tmp/wt-refac
 [ -d $wt ] || git -C /repo worktree add --detach $wt HEAD >/dev/null 2>&1
 dirs=$(ls -d /tmp/refac-$id/*/ 2>/dev/null); [ -z "$dirs" ] && dirs=$(ls -d /verif/refactored/$id-*/ 2>/dev/null)
 for d in $dirs; do
